@@ -213,7 +213,12 @@ type streamWorker struct {
 }
 
 func (w *streamWorker) fresh(k kase) bool {
-	w.s = handshake([2]crypto.PrivKey{keyA, keyB}, nil, [2][][]byte{})
+	for attempt := 1; attempt <= 3; attempt++ {
+		w.s = handshake([2]crypto.PrivKey{keyA, keyB}, nil, [2][][]byte{})
+		if !w.s.hung {
+			break
+		}
+	}
 	w.s.d.mute = true // single-threaded from here on; nothing to record
 	w.prior = nil
 	if !w.c.checkCleanHandshake(k, w.s, "secretconn-stream") {
@@ -377,11 +382,15 @@ func streamTasks(maxW int) []streamTask {
 
 func (c *ctx) runStreamTask(t streamTask, maxR int) {
 	w := &streamWorker{c: c}
+	fl := c.begin(kase{Part: "stream", Writes: t.writes, Reads: []int{t.r1}}, map[string]string{"part": "secretconn-stream"})
+	defer c.end(fl)
 	total := sum(t.writes)
 	var rec func(cur []int, acc int)
 	rec = func(cur []int, acc int) {
 		if acc >= total || len(cur) == maxR {
-			w.run(t.writes, append([]int(nil), cur...))
+			reads := append([]int(nil), cur...)
+			fl.at(kase{Part: "stream", Writes: t.writes, Reads: reads, Prior: w.prior})
+			w.run(t.writes, reads)
 			return
 		}
 		for _, s := range sizeSet {
